@@ -669,6 +669,7 @@ func runHistory(c clientCase) (*engine, error) {
 	if err != nil {
 		return nil, fmt.Errorf("harness: NewClient: %w", err)
 	}
+	defer e.w.Release()
 	for i, h := range c.Ops {
 		if err := e.step(i, h); err != nil {
 			_ = e.closeClientQuietly()
